@@ -1948,7 +1948,8 @@ class Fn:
                 if pair_ is not None:
                     a_ = self.swap_lvalue(pair_[0]); b_ = self.swap_lvalue(pair_[1])
                     for f_ in (a_, b_):
-                        if self.ctx.fields.get(f_, 'scalar') not in ('scalar', 'bool'):
+                        if self.ctx.fields.get(f_, 'scalar') not in ('scalar', 'bool') \
+                                and not str(self.ctx.fields.get(f_)).startswith('abstract:'):   # C14: a whole member object ("abstract:<type>") is exchanged as one value
                             raise TranslationError('swap of non-scalar ' + f_)
                         self.note_write(f_)
                     return f'let swap_tmp_ := {a_} in\nlet {a_} := {b_} in\nlet {b_} := swap_tmp_ in\n{rest()}'
@@ -2575,7 +2576,10 @@ class Fn:
                     self.note_write(bf_)
                     txt = f'let {bf_} := {v_} in\n' + txt
                     continue
-                if fld_ not in self.ctx.fields or self.ctx.fields[fld_] not in ('scalar', 'bool'):
+                if fld_ not in self.ctx.fields or (self.ctx.fields[fld_] not in ('scalar', 'bool')
+                        # C14: a member OBJECT of several fields ("abstract:<tuple type>") may only be initialised by its own
+                        # translated move constructor ("member_move_ctors")
+                        and not (str(self.ctx.fields[fld_]).startswith('abstract:') and fld_ in self.ctx.cfg.get('member_move_ctors', {}))):
                     raise TranslationError('constructor initialiser of %s which is not a configured scalar field' % fld_)
                 self.note_write(fld_)
                 mm_ = self.ctx.cfg.get('member_move_ctors', {}).get(fld_)
